@@ -125,8 +125,13 @@ class Interp:
 
     def _check(self, *assumptions, proof=False):
         t = time.time()
-        self.solver.set("timeout", self.timeout_ms if proof else self.feas_timeout_ms)
+        budget = self.timeout_ms if proof else self.feas_timeout_ms
+        self.solver.set("timeout", budget)
         r = self.solver.check(*assumptions)
+        if proof and r == z3.unknown and (time.time() - t) * 1000 >= 0.8 * budget:
+            # timed out (not 'gave up on quantifiers'): one retry with three times the budget (loaded machine)
+            self.solver.set("timeout", 3 * budget)
+            r = self.solver.check(*assumptions)
         self.solver_time += time.time() - t
         return r
 
